@@ -96,7 +96,7 @@ PROPS = {
         explanation="result-shape postconditions, 'update never raises on a query result' and per-iteration equivalence of update and query_by_utility "
                     "proved on the real bodies; chunkings compared at run time"),
     "C11": dict(
-        units=[("contracts.classifiers", has("C11"))],
+        units=[("contracts.classifiers", has("C11")), ("contracts.probabilities", has("C11"))],
         bounded=[("bounded/models.py", "C11")],
         trusted=[L2_BASE],
         assumptions=["kernel values / mixture responsibilities are non-negative", "AnnotatorLogisticRegression and the mixture model are numerical optimisers: bounded only"],
